@@ -16,6 +16,7 @@
 #define MAXEV 4
 #define ENV_ANY_FORMAT 1
 #include "env.h"
+static unsigned vf_token_code(const char *s) { (void)s; return 0; }
 #include <getopt.h>
 #include <stdlib.h>
 
@@ -181,6 +182,7 @@ void harness(void)
   for (unsigned i = 0; i < NFILES; ++i) {
     is_dash[i] = vf_bool();
     names[i][0] = (char)vf_u8(); names[i][1] = (char)vf_u8(); names[i][2] = 0;
+    VF_ASSUME(!(names[i][0] == '-' && names[i][1] == 0));      /* "-" is modelled by is_dash */
     if (i < nfiles) argv[first_operand + i] = is_dash[i] ? dash : names[i];
   }
   argv[argc] = NULL;
@@ -208,8 +210,10 @@ void harness(void)
   {
     unsigned dashes = 0, stdin_decodes = 0;
     for (unsigned i = 0; i < NFILES; ++i) { if (i < nfiles && is_dash[i]) dashes++; if (i < ndc && DC[i].f == stdin) stdin_decodes++; }
-    if (ndc + 0 == nfiles || dashes == 0) VF_ASSERT(stdin_decodes <= dashes, "standard input is read only for the operand -");
-    VF_ASSERT(stdin_decodes == dashes || rc == 1, "every - operand is decoded from standard input unless the run failed early");
+    VF_ASSERT(stdin_decodes <= dashes, "standard input is read only for the operand -");
+    if (ndc == nfiles)
+      for (unsigned i = 0; i < NFILES; ++i) if (i < nfiles)
+        VF_ASSERT((DC[i].f == stdin) == (is_dash[i] != 0), "operand - means standard input, any other operand is opened as a file");
   }
   if (ndc == 3 && !DC[0].ok && DC[2].ok) VF_WITNESS("three files, first fails, last succeeds");
   if (ndc == 2 && DC[0].f == stdin) VF_WITNESS("standard input then a file");
